@@ -1064,6 +1064,14 @@ impl<'s> Semantics<'s> {
             // get started
             let dst = self.operand_load(block, &detail.operands[0])?;
 
+            // a target narrower than the mode (operand-size prefix) is
+            // zero-extended into the instruction pointer
+            let dst = if dst.bits() < self.mode().bits() {
+                Expr::zext(self.mode().bits(), dst)?
+            } else {
+                dst
+            };
+
             let ret_addr = self.instruction().address + self.instruction().size as u64;
 
             self.mode()
@@ -1925,6 +1933,14 @@ impl<'s> Semantics<'s> {
             let block = control_flow_graph.new_block()?;
 
             let dst = self.operand_load(block, &detail.operands[0])?;
+
+            // a target narrower than the mode (operand-size prefix) is
+            // zero-extended into the instruction pointer
+            let dst = if dst.bits() < self.mode().bits() {
+                Expr::zext(self.mode().bits(), dst)?
+            } else {
+                dst
+            };
 
             // we only need to emit a brc here if the destination cannot be determined
             // at translation time
